@@ -1,6 +1,6 @@
 (** C06 -- Deferred G-codes and enter/exit scripts: exactly once per exclusion episode. *)
-From Coq Require Import QArith String List Bool.
-From ER Require Import Base.Num Model.Geometry Model.Axis Model.Filter Proofs.FilterLemmas Proofs.Deferred Proofs.Outputs Proofs.Episode.
+From Coq Require Import QArith String List Bool Sorted.
+From ER Require Import Base.Num Model.Geometry Model.Axis Model.Filter Proofs.FilterLemmas Proofs.Deferred Proofs.Outputs Proofs.Episode Proofs.DeferOrder.
 Import ListNotations.
 
 (** per code: the pending entry after any sequence of configured commands is the declarative reading
@@ -23,6 +23,19 @@ Theorem C06_flush : forall (T : Type) (N : Num T) c (s : fstate T) (m0 : icmd T)
     (forall o, In o resync -> match o with MoveZ _ _ | MoveXY _ _ _ => True | _ => False end) /\
     pending (fst (exitExcludedRegion c s1)) = [] /\ excluding (fst (exitExcludedRegion c s1)) = false.
 Proof. exact @episode_flush. Qed.
+
+(** order across codes: the pending list (hence the flushed commands, [pending_cmds] being a map) is ordered by the
+    retained occurrence of each code -- the first one for `first` codes, the last one for `last` / `merge` codes *)
+Theorem C06_order : forall (T : Type) (N : Num T) modef (seen : list (xmode * icmd T)), consistent modef seen ->
+  StronglySorted (before modef seen) (map fst (pend_after seen)).
+Proof. exact @pending_order. Qed.
+Theorem C06_episode_order : forall (T : Type) (N : Num T) c (s : fstate T) (m0 : icmd T) (ms : list (icmd T)),
+  excluding s = false -> no_leak s ->
+  excluding (fst (handle c s m0)) = true -> inside_run c (fst (handle c s m0)) ms ->
+  let s1 := run_state c (fst (handle c s m0)) ms in
+  StronglySorted (before (modef c) (seen_of c ms)) (map fst (pending s1)) /\
+  map fst (pending s1) = map fst (pend_after (seen_of c ms)).
+Proof. exact @episode_order. Qed.
 
 (** a configured code met inside an episode is withheld *)
 Theorem C06_withheld : forall (T : Type) (N : Num T) c (s : fstate T) (m : icmd T) mode,
@@ -53,6 +66,8 @@ Proof. exact @handle_at_no_leak. Qed.
 
 Print Assumptions C06_modes.
 Print Assumptions C06_flush.
+Print Assumptions C06_order.
+Print Assumptions C06_episode_order.
 Print Assumptions C06_withheld.
 Print Assumptions C06_enter_at_open.
 Print Assumptions C06_no_script_inside.
